@@ -313,7 +313,11 @@ class SymExec:
                 if k[1] == owner:
                     inner.locals['__class__'] = k
         inner.status, inner.retval = 'run', None
-        outs = self.block(U.body_without_docstring(func), [inner], depth)
+        self._funcs = getattr(self, '_funcs', []) + [func]
+        try:
+            outs = self.block(U.body_without_docstring(func), [inner], depth)
+        finally:
+            self._funcs = self._funcs[:-1]
         res = []
         for o in outs:
             o2 = o
@@ -340,7 +344,11 @@ class SymExec:
             if a.vararg and not args:
                 loc[a.vararg.arg] = ('arg', '*' + a.vararg.arg)
         st.locals = loc
-        outs = self.block(U.body_without_docstring(func), [st], 0)
+        self._funcs = [func]
+        try:
+            outs = self.block(U.body_without_docstring(func), [st], 0)
+        finally:
+            self._funcs = []
         self.npaths += len(outs)
         return outs
 
@@ -474,6 +482,30 @@ class SymExec:
                     else:
                         a.events.append(('cond', 'T', U.src(v_)))
             return self.block(s.body, [a], depth) + self.block(s.orelse, [b], depth)
+        if isinstance(s, ast.For) and not s.orelse:
+            elems = self._literal_elems(s.iter)
+            if elems is not None and len(elems) <= 32:
+                # a loop over a literal table is unrolled: table-driven dispatch is decided exactly
+                states = [st]
+                for e in elems:
+                    nxt = []
+                    for cur in states:
+                        if cur.status != 'run':
+                            nxt.append(cur)
+                            continue
+                        self.assign(s.target, self.ev(e, cur, depth), cur, depth, s)
+                        outs = self.block(s.body, [cur], depth)
+                        for o in outs:
+                            if o.status == 'continue':
+                                o.status = 'run'
+                        nxt += outs
+                    states = nxt
+                    if len(states) > MAX_PATHS:
+                        raise AnalysisError('symbolic execution: too many paths')
+                for o in states:
+                    if o.status == 'break':
+                        o.status = 'run'
+                return states
         if isinstance(s, (ast.For, ast.While)):
             # havoc everything the loop may write (fields of self and locals)
             for n in ast.walk(s):
@@ -498,10 +530,58 @@ class SymExec:
             return self.block(s.body, [st], depth)
         if isinstance(s, ast.Try):
             return self.block(s.body + s.orelse + s.finalbody, [st], depth)
-        if isinstance(s, (ast.Pass, ast.Import, ast.ImportFrom, ast.Global, ast.Nonlocal, ast.Assert, ast.Delete, ast.Break, ast.Continue,
+        if isinstance(s, ast.Break):
+            st.status = 'break'
+            return [st]
+        if isinstance(s, ast.Continue):
+            st.status = 'continue'
+            return [st]
+        if isinstance(s, (ast.Pass, ast.Import, ast.ImportFrom, ast.Global, ast.Nonlocal, ast.Assert, ast.Delete,
                           ast.FunctionDef, ast.ClassDef)):
             return [st]
         raise AnalysisError(f'symbolic execution: statement {type(s).__name__} not supported')
+
+    def _literal_elems(self, it):
+        """element expressions of an iterable that is a literal tuple/list: written in place, or bound once to a local of
+        the current function, a module-level name or a class-level attribute (self.X / Cls.X)"""
+        if isinstance(it, (ast.Tuple, ast.List)) and not any(isinstance(e, ast.Starred) for e in it.elts):
+            return list(it.elts)
+        cands = []
+        if isinstance(it, ast.Name):
+            for fn in reversed(getattr(self, '_funcs', [])):
+                hits = [n for n in ast.walk(fn) if isinstance(n, ast.Assign) and any(isinstance(t, ast.Name) and t.id == it.id for t in n.targets)]
+                stores = [n for n in ast.walk(fn) if isinstance(n, ast.Name) and n.id == it.id and isinstance(n.ctx, ast.Store)]
+                if hits or stores:
+                    if len(hits) == 1 and len(stores) == 1:
+                        cands = [hits[0].value]
+                    else:
+                        return None
+                    break
+            if not cands:
+                try:
+                    mod = self.repo.module(self.cls[0])
+                    hits = [n for n in mod.tree.body if isinstance(n, ast.Assign) and any(isinstance(t, ast.Name) and t.id == it.id for t in n.targets)]
+                    if len(hits) == 1:
+                        cands = [hits[0].value]
+                except Exception:
+                    return None
+        elif isinstance(it, ast.Attribute) and isinstance(it.value, ast.Name):
+            for k in self.ix.mro(self.cls):
+                try:
+                    cnode = self.repo.cls(k[0], k[1])
+                except Exception:
+                    continue
+                hits = [n for n in cnode.body if isinstance(n, ast.Assign) and any(isinstance(t, ast.Name) and t.id == it.attr for t in n.targets)]
+                if hits:
+                    if len(hits) == 1:
+                        cands = [hits[0].value]
+                    break
+            # an instance attribute of the same name would shadow the class table
+            if cands and any(isinstance(n, ast.Attribute) and n.attr == it.attr and isinstance(n.ctx, ast.Store) for m_ in self.repo.modules.values() for n in ast.walk(m_.tree)):
+                return None
+        if len(cands) == 1 and isinstance(cands[0], (ast.Tuple, ast.List)) and not any(isinstance(e, ast.Starred) for e in cands[0].elts):
+            return list(cands[0].elts)
+        return None
 
     def recall(self, test, st):
         """earlier decision for a textually identical test, provided no self-field mentioned in it was written since"""
